@@ -162,11 +162,11 @@ func TestC05(t *testing.T) {
 					// a fresh lazily reified node per request
 					var node ipld.Node
 					var rerr error
+					st.ResetLog() // loads made while reifying lazily count towards the request
 					if !c.Guard("Reify", func() { node, rerr = ls.KnownReifiers["unixfs"](ipld.LinkContext{Ctx: bg}, raw, ls) }) || rerr != nil {
 						c.Violation("C05|reify", "lazy reify: %v", rerr)
 						return
 					}
-					st.ResetLog()
 					var got []byte
 					var gerr error
 					what := ""
@@ -350,6 +350,7 @@ func TestC05(t *testing.T) {
 				}
 				var node ipld.Node
 				var rerr error
+				st.ResetLog() // loads made while reifying lazily count towards the lookup
 				c.Guard("Reify", func() { node, rerr = ls.KnownReifiers["unixfs"](ipld.LinkContext{Ctx: bg}, raw, ls) })
 				if rerr != nil || node == nil {
 					c.Violation("C05|reify", "lazy reify of sharded dir: %v", rerr)
@@ -358,7 +359,6 @@ func TestC05(t *testing.T) {
 				if i == 0 {
 					warm = node
 				}
-				st.ResetLog()
 				c.Guard("LookupByString", func() { node.LookupByString(name) })
 				checkSubset(c, fmt.Sprintf("C05|dir-overfetch|member=%v", member), fmt.Sprintf("LookupByString(%q) on a fresh fanout-%d directory (depth %d, %d shards)", name, d.Fanout, depth+1, len(shards)), st.ReadCids(), allowed)
 				if member {
